@@ -308,7 +308,8 @@ pub fn worker(tier: &str, k: usize, n: usize, ctx: &mut Ctx) {
 /// carries the NAME (and content) of one of the outer map's other sources.
 pub fn for_each_combined_term(tier: &str, st: &mut Striper, visit: &mut dyn FnMut(&Term)) {
   let thorough = tier == "thorough";
-  let gens: &[&str] = if thorough { &["ab\n", "a\nb", "abc", "a;b\nc"] } else { &["ab\n", "a\nb", "abc"] };
+  // ("o1" is also the NAME of the outer map's other source: a text is not a name)
+  let gens: &[&str] = if thorough { &["ab\n", "a\nb", "abc", "a;b\nc", "o1"] } else { &["ab\n", "a\nb", "abc", "o1"] };
   // (original text, contents of the inner map's sources)
   let originals: &[&str] = &["ab\nc", "xy\nab"];
   let inner_kinds: [Option<O4>; 5] = [None, Some((0, 1, 0, None)), Some((0, 1, 1, Some(0))), Some((1, 2, 0, None)), Some((0, 2, 0, None))];
